@@ -53,6 +53,10 @@ def r1_build(ck, cx):
         elif kind == 'ascii':
             ok = len(seq) == 1 and seq[0][0] == 'XF' and seq[0][1] == 'upper'
             inner = seq[0][2] if ok else Seq()
+            if not ok:
+                # no upper-casing of the whole packet: every piece must be upper case by construction
+                # (b2a_hex yields lower-case digits, so a hex(...) item without upper() is a deviation)
+                pass
             start, end = const_bytes(cx, cls, '_start'), const_bytes(cx, cls, '_end')
             shape = [it[0] for it in inner]
             ok = ok and shape == ['RAW', 'TEXT', 'XF', 'TEXT', 'RAW'] and inner[0][1] == 'self._start' and inner[4][1] == 'self._end' \
@@ -142,7 +146,7 @@ def r2_agreement(ck, cx, builds):
         gfn = cx.method(cls, 'getFrame')
         ck.saw('functions', gfn.qn)
         fc_off = Poly.const(0)
-        items = seq[0][2] if kind == 'ascii' else seq
+        items = seq[0][2] if (kind == 'ascii' and len(seq) == 1 and seq[0][0] == 'XF') else seq
         for it in items:
             if (it[0] == 'F' and it[2] == 'message.function_code'):
                 break
